@@ -1,10 +1,23 @@
 // C++ shim used only in REAL native builds (replay / translation validation): calls a real function and turns a
-// C++ exception into a flag, so that C harnesses can observe "threw".
+// C++ exception into a flag/code, so that C harnesses can observe "threw".
 #include <exception>
 #include <cstdint>
+#include <pistache/http_defs.h>
 extern "C" {
 int vp_real_exception;
 int vp_call_guarded(uint8_t* (*f)(uint8_t*), uint8_t* self, uint8_t** ret) {
   try { *ret = f(self); return 0; } catch (...) { vp_real_exception = 1; *ret = nullptr; return 1; }
+}
+int vp_call_guarded3(uint32_t (*f)(uint8_t*, uint8_t*, uint8_t*), uint8_t* a, uint8_t* b, uint8_t* c, uint32_t* ret, uint32_t* code) {
+  try { *ret = f(a, b, c); return 0; }
+  catch (const Pistache::Http::HttpError& e) { *code = (uint32_t)e.code(); *ret = 0; return 1; }
+  catch (const std::exception&) { *code = 500; *ret = 0; return 1; }
+  catch (...) { *code = 599; *ret = 0; return 1; }
+}
+int vp_call_guarded2(uint32_t (*f)(uint8_t*, uint8_t*), uint8_t* a, uint8_t* b, uint32_t* ret, uint32_t* code) {
+  try { *ret = f(a, b); return 0; }
+  catch (const Pistache::Http::HttpError& e) { *code = (uint32_t)e.code(); *ret = 0; return 1; }
+  catch (const std::exception&) { *code = 500; *ret = 0; return 1; }
+  catch (...) { *code = 599; *ret = 0; return 1; }
 }
 }
